@@ -283,6 +283,18 @@ def _with_named_sets(repo: Repo, rel: str, e: ast.expr) -> ast.expr:
                 if isinstance(inner, (ast.Set, ast.Tuple, ast.List)) and all(isinstance(x, (ast.Constant, ast.UnaryOp)) for x in inner.elts):
                     return copy.deepcopy(d)
             return node
+
+        def visit_Attribute(self, node):
+            # self._IMPLICIT_SLOTS / cls._IMPLICIT_SLOTS: a class-level constant set of the file's classes (bound once)
+            if isinstance(node.ctx, ast.Load) and isinstance(node.value, ast.Name) and node.value.id in ("self", "cls") and sf is not None \
+                    and node.attr.upper() == node.attr and any(c.isalpha() for c in node.attr):
+                owners = [k for k in repo.all_classes() if k.file is sf and node.attr in k.assigns]
+                if len(owners) == 1:
+                    d = owners[0].assigns[node.attr]
+                    inner = d.args[0] if isinstance(d, ast.Call) and norm(d.func) in ("set", "frozenset", "tuple") and len(d.args) == 1 else d
+                    if isinstance(inner, (ast.Set, ast.Tuple, ast.List)) and all(isinstance(x, (ast.Constant, ast.UnaryOp)) for x in inner.elts):
+                        return copy.deepcopy(d)
+            return self.generic_visit(node)
     return X().visit(copy.deepcopy(e))
 
 
